@@ -32,7 +32,7 @@ ASSUMPTIONS = [
     "warnings are recorded, never an oracle",
 ]
 
-UNKNOWN_LEAF = ["ZZUNKNOWN", "NOTATAG", "X1", "FOO_BAR", "MEMO2"]
+UNKNOWN_LEAF = ["ZZUNKNOWN", "NOTATAG", "X1", "FOO_BAR", "MEMO2", "COUNT", "INDEX", "SPEC", "SORT", "APPEND", "ELEMENTS", "CURSYM", "CURRATE", "ORG", "FID", "STATEMENTS"]
 VENDOR_LEAF = ["INTU.BID", "X.ACCTID", "A.B.C", "INTU.USERID", "Q.1"]
 VENDOR_AGG = ["INTU.XYZ", "A.B", "VENDOR.AGG", "INTU." + "X" * 27, "V." + "LONGVENDORAGGREGATENAME" * 2]
 UNKNOWN_AGG = ["ZZAGG", "NOTANAGG", "XTRA", "Z" * 31, "Z" * 32, "Z" * 33, "ZZ_A_RATHER_LONG_UNKNOWN_AGGREGATE_NAME_OF_50_CHARS"]
@@ -94,6 +94,18 @@ def foreign_node(kind, k, enclosing_cls):
         ET.SubElement(e, "INTU.A").text = "1"
         e.append(D.to_etree(M.minimal(U["STATUS"])))
         return e, "vendor-aggregate"
+    if kind == 6:
+        # a complete, valid aggregate of another class where the enclosing class has no place for it
+        cands = ["CCSTMTTRNRS", "STMTTRNRS", "INVSTMTTRNRS", "CCSTMTENDTRNRS", "SECLIST", "STATUS", "STMTTRN", "BANKACCTFROM", "SONRS", "PROFTRNRS"]
+        nm = None
+        for i in range(len(cands)):
+            c = cands[(k + i) % len(cands)]
+            if c not in known and c in U:
+                nm = c
+                break
+        if nm is None:
+            return None
+        return D.to_etree(M.minimal(U[nm])), "foreign-complete-aggregate"
     if kind == 5:
         # an unknown / vendor aggregate may be nested as deeply as its author likes
         nm = pick(UNKNOWN_AGG) if k % 2 else VENDOR_AGG[k % len(VENDOR_AGG)]
@@ -233,7 +245,7 @@ def _worker(job):
         strat = st.builds(
             lambda d, ins: {"inst": d, "ins": ins},
             M.instance_st(cls, markup=True),
-            st.lists(st.tuples(st.integers(0, 40), st.integers(0, 12), st.integers(0, 5), st.integers(0, 30)).map(list), min_size=1, max_size=5),
+            st.lists(st.tuples(st.integers(0, 40), st.integers(0, 12), st.integers(0, 6), st.integers(0, 30)).map(list), min_size=1, max_size=5),
         )
 
         def body(case):
@@ -266,7 +278,9 @@ def _vendor_sweep_worker(names):
                 M.build(desc)
         except Exception:
             continue
-        for tag in ("INTU.BID", "INTU.USERID", "INTU.BROKERID", "ZZUNKNOWN"):
+        for tag in ("INTU.BID", "INTU.USERID", "INTU.BROKERID", "ZZUNKNOWN", "COUNT", "INDEX", "SPEC", "CURSYM", "ORG", "STATEMENTS"):
+            if tag in declared_names(U[name]):
+                continue
             for where in ("first", "last"):
                 case = {"kind": "sweep", "cls": name, "tag": tag, "where": where}
                 s.case(case, nontrivial=True, labels=["vendor-element sweep"])
